@@ -176,6 +176,48 @@ impl RandomProp for Typed {
     }
 }
 
+/// The Display text of a mismatch error: if it contains the words "requested" and "actual" and the display names of both
+/// types (as whole words, the two names different), the name closest to "requested" is S's and the name closest to "actual"
+/// is T's. Any other wording is not judged.
+fn mismatch_text_ok(e: &Error) -> Result<(), String> {
+    let (req, act) = match e {
+        Error::MismatchShapeType { requested, actual } => (requested.to_string(), actual.to_string()),
+        _ => return Ok(()),
+    };
+    if req == act {
+        return Ok(());
+    }
+    let text = e.to_string();
+    let lower = text.to_lowercase();
+    // whole-word occurrences (start offsets)
+    let words = |hay: &str, w: &str| -> Vec<usize> {
+        let b = hay.as_bytes();
+        hay.match_indices(w)
+            .filter(|(i, _)| {
+                let before = *i == 0 || !b[*i - 1].is_ascii_alphanumeric();
+                let after = *i + w.len() >= b.len() || !b[*i + w.len()].is_ascii_alphanumeric();
+                before && after
+            })
+            .map(|(i, _)| i)
+            .collect()
+    };
+    let (wr, wa) = (words(&lower, "requested"), words(&lower, "actual"));
+    let (nr, na) = (words(&text, &req), words(&text, &act));
+    if wr.len() != 1 || wa.len() != 1 || nr.len() != 1 || na.len() != 1 {
+        return Ok(());
+    }
+    let d = |a: usize, b: usize| if a > b { a - b } else { b - a };
+    let near = |w: usize| -> Option<bool> {
+        // Some(true): the requested type's name is strictly closer to the word at w
+        let (x, y) = (d(w, nr[0]), d(w, na[0]));
+        if x == y { None } else { Some(x < y) }
+    };
+    match (near(wr[0]), near(wa[0])) {
+        (Some(true), Some(false)) | (None, _) | (_, None) => Ok(()),
+        _ => Err(format!("the message {:?} attaches \"requested\" / \"actual\" to the wrong types (requested {}, actual {})", text, req, act)),
+    }
+}
+
 fn mismatch_of(e: &Error) -> Option<(Ty, Ty)> {
     match e {
         Error::MismatchShapeType { requested, actual } => Some((ty_of(*requested), ty_of(*actual))),
@@ -245,6 +287,11 @@ impl KindFn for Cell<'_> {
                     }
                 }
                 (Err(ea), Err(eb)) => {
+                    for e in [ea, eb] {
+                        if let Err(m) = mismatch_text_ok(e) {
+                            fail!("typed-error-text", "file of {} requested as {}: {}", self.actual.name(), s_ty.name(), m);
+                        }
+                    }
                     let (ma, mb) = (mismatch_of(ea), mismatch_of(eb));
                     ensure!(
                         ma == Some((s_ty, self.actual)),
@@ -367,6 +414,74 @@ impl KindFn for Cell<'_> {
                         self.actual.name(),
                         e
                     ),
+                }
+            }
+            // skip / step_by / nth on the typed iterator: what they yield is the converted generic read, sliced the same way
+            if s_ty == self.actual && self.n >= 2 {
+                let want = |idx: &[usize], got: Vec<Result<S, Error>>, what: String| -> Result<(), Fail> {
+                    ensure!(got.len() == idx.len(), "typed-vs-generic", "{}: {} items, the generic read sliced the same way has {}", what, got.len(), idx.len());
+                    for (j, (g, i)) in got.iter().zip(idx).enumerate() {
+                        match g {
+                            Ok(v) => ensure!(v.view() == self.generic[*i], "typed-vs-generic", "{}: item {} is not record {} of the generic read", what, j, i),
+                            Err(e) => fail!("typed-vs-generic", "{}: item {} is {:?}; the generic read converts record {} without error", what, j, e, i),
+                        }
+                    }
+                    Ok(())
+                };
+                for k in [1, self.n / 2, self.n - 1] {
+                    let idx: Vec<usize> = (k..self.n).collect();
+                    let got: Vec<Result<S, Error>> = open()?.iter_shapes_as::<S>().skip(k).collect();
+                    want(&idx, got, format!("iter_shapes_as::<{}>().skip({}) (index: {})", s_ty.name(), k, with_shx))?;
+                    let mut r = open()?;
+                    let mut it = r.iter_shapes_as::<S>();
+                    let mut got: Vec<Result<S, Error>> = it.nth(k).into_iter().collect();
+                    got.extend(it);
+                    want(&idx, got, format!("iter_shapes_as::<{}>().nth({}) then the rest (index: {})", s_ty.name(), k, with_shx))?;
+                }
+                let idx: Vec<usize> = (0..self.n).step_by(2).collect();
+                let got: Vec<Result<S, Error>> = open()?.iter_shapes_as::<S>().step_by(2).collect();
+                want(&idx, got, format!("iter_shapes_as::<{}>().step_by(2) (index: {})", s_ty.name(), with_shx))?;
+            }
+            // random access done generically on one reader and typed on another: the same shape, and whatever is read in
+            // bulk afterwards (typed on both) is the same too
+            if with_shx && s_ty == self.actual && self.n >= 2 {
+                for k in [0, self.n / 2, self.n - 1] {
+                    let (mut a, mut b) = (open()?, open()?);
+                    let ga = a.read_nth_shape(k);
+                    let tb = b.read_nth_shape_as::<S>(k);
+                    match (&ga, &tb) {
+                        (Some(Ok(x)), Some(Ok(y))) => ensure!(view_shape(x) == y.view(), "typed-vs-generic", "read_nth_shape({}) and read_nth_shape_as::<{}>({}) return different shapes", k, s_ty.name(), k),
+                        (x, y) => fail!(
+                            "typed-generic-disagree",
+                            "record {} of {} ({}): read_nth_shape is {}, read_nth_shape_as::<{}> is {}",
+                            k,
+                            self.n,
+                            self.actual.name(),
+                            match x { Some(Ok(_)) => "Some(Ok)", Some(Err(_)) => "Some(Err)", None => "None" },
+                            s_ty.name(),
+                            match y { Some(Ok(_)) => "Some(Ok)", Some(Err(_)) => "Some(Err)", None => "None" }
+                        ),
+                    }
+                    let (ra, rb) = (a.read_as::<S>(), b.read_as::<S>());
+                    match (&ra, &rb) {
+                        (Ok(x), Ok(y)) => {
+                            ensure!(
+                                x.len() == y.len(),
+                                "typed-vs-generic",
+                                "read_as::<{}> after the generic read_nth_shape({}) returns {} shapes, after the typed read_nth_shape_as({}) {} shapes (file of {})",
+                                s_ty.name(),
+                                k,
+                                x.len(),
+                                k,
+                                y.len(),
+                                self.n
+                            );
+                            for (i, (u, v)) in x.iter().zip(y.iter()).enumerate() {
+                                ensure!(u.view() == v.view(), "typed-vs-generic", "read_as::<{}> after generic / typed random access at {}: shape {} differs", s_ty.name(), k, i);
+                            }
+                        }
+                        (x, y) => ensure!(x.is_ok() == y.is_ok(), "typed-generic-disagree", "read_as::<{}> after generic random access at {} is {}, after typed random access {}", s_ty.name(), k, if x.is_ok() { "Ok" } else { "Err" }, if y.is_ok() { "Ok" } else { "Err" }),
+                    }
                 }
             }
             // iterator form: never yields a value of the wrong type (stop at the first error: what an
